@@ -12,7 +12,7 @@ What is proved here (for every bytecode, pc, stack, …):
 * `two_pop_underflow_differs_only_when`   non-pedantic stack underflow of the two-argument control opcodes
 * `budget_differs_only_when`   the loop / jump budget formulas differ exactly when FreeType's 100 × numGlyphs clamp bites
                        (the recorded finding C03-loop-budget-glyph-count-clamp)
-* `def_capacity_eq`, `def_capacity_differs_only_when`, `prep_initial_stack_differs_only_when`, `call_depth_limit_eq`, `instruction_cap_eq`,
+* `def_capacity_eq`, `def_capacity_differs_only_when`, `prep_initial_stack_eq`, `call_depth_limit_eq`, `instruction_cap_eq`,
   `endf_sim`, `eof_sim`
 * `control_simulation_partial`   n-step lock step, see the statement and the note above it for what is missing.
 -/
@@ -354,9 +354,9 @@ theorem def_capacity_eq (n : Nat) : Interp.functionSlots n = FtControl.maxFDefsO
 theorem def_capacity_differs_only_when (n : Nat) : FtControl.maxFDefsOf n ≠ n ↔ n < 64 := by
   unfold FtControl.maxFDefsOf; split <;> omega
 
-/-- the stack `prep` starts with: FreeType always `[]` (`exec->top = 0`), skrifa what `fpgm` left -/
-theorem prep_initial_stack_differs_only_when (fpgmFinal : List Int) :
-    HintControl.prepStack fpgmFinal ≠ [] ↔ fpgmFinal ≠ [] := Iff.rfl
+/-- the stack `prep` starts with: `[]` on both sides since fix 83e5236 (`Engine::reset` clears the value stack;
+FreeType `exec->top = 0`) -/
+theorem prep_initial_stack_eq (fpgmFinal : List Int) : HintControl.prepStack fpgmFinal = [] := rfl
 
 /-- call stack: both refuse the 33rd nested call -/
 theorem call_depth_limit_eq {D} (c : Interp.Cfg D) (fc : FtControl.Cfg D) (s : Interp.St D) (t : FtControl.St D)
